@@ -250,4 +250,9 @@ Section Bytes.
     intros. autounfold with c12gen. assert (n * c * s' <= n * c * s) by (apply Z.mul_le_mono_nonneg_l; [nn|lia]).
     destruct Hf as [-> | ->]; cbn [Z.eqb]; lia.
   Qed.
+  Lemma big_mono (c s s' : Z) : 0 <= c -> s' <= s -> hal_bytes_of_vec_znx_big fam n c s' <= hal_bytes_of_vec_znx_big fam n c s.
+  Proof using Hf Hn0 Hn8.
+    intros. autounfold with c12gen. assert (n * c * s' <= n * c * s) by (apply Z.mul_le_mono_nonneg_l; [nn|lia]).
+    destruct Hf as [-> | ->]; cbn [Z.eqb]; lia.
+  Qed.
 End Bytes.
